@@ -20,7 +20,7 @@ import c08
 PROP = "C15"
 MC_INVS_C15 = "TsExcluded TsFurthest TsMonotone"
 BOUNDS = {      # timestamp requests only (TsOnly)
-    "quick": dict(N=3, Levels=c08.LV, MaxFiles=3, MaxTs=3, Parts=1, Fanout=True, TsOnly=True, cfg="MC_RestorePlan_quick_ts3.cfg"),
+    "quick": dict(N=3, Levels=[0, 1, 9], MaxFiles=3, MaxTs=3, Parts=1, Fanout=True, TsOnly=True, cfg="MC_RestorePlan_quick_ts3.cfg"),
     "thorough": dict(N=4, Levels=c08.LV, MaxFiles=3, MaxTs=3, Parts=1, Fanout=True, TsOnly=True, cfg="MC_RestorePlan_ts3.cfg"),
 }
 
